@@ -18,14 +18,14 @@ def content_key(data):
     return "%016x#%d" % (fnv(data), len(data))
 
 
-def make_info(rng, idx, paths, marker=None, malformed=False):
+def make_info(rng, idx, paths, marker=None, malformed=False, agree_starts=False):
     """a small unique lcov file about 1-2 of the shared source paths"""
     out = "TN:item%d%s\n" % (idx, (" " + marker) if marker else "")
     for p in rng.sample(paths, rng.randrange(1, min(3, len(paths)) + 1)):
         out += "SF:%s\n" % p
         fns = rng.sample(["f", "g", "h", "café"], rng.randrange(0, 3))
         for f in fns:
-            out += "FN:%d,%s\n" % (rng.choice([1, 5, 9]), f)
+            out += "FN:%d,%s\n" % ({"f": 1, "g": 5, "h": 9}.get(f, 3) if agree_starts else rng.choice([1, 5, 9]), f)
         for f in fns:
             out += "FNDA:%d,%s\n" % (rng.choice([0, 1, 3]), f)
         for l in sorted(rng.sample(range(1, 9), rng.randrange(1, 5))):
